@@ -18,6 +18,7 @@ RULE = ("the derivation TREE is explored explicitly (memoised by node): for seed
 ASSUMPTIONS = ["vf/ref/bip32_ref.py (ecref point maths, own serialisation), validated on BIP32 vectors 1 and 3 in the selftest",
                "int()-style leniency in path components is not examined"]
 OBLIGATIONS = {
+    "history_sequences": "operation sequences (non-initial process states) explored",
     "hardened_edge": "a hardened child derived", "public_edge": "a child derived from an xpub", "hardened_from_xpub": "a hardened child "
     "requested from an xpub (must raise)", "index_max_nonhardened": "index 2^31-1", "stepwise": "a depth>=2 key derived step by step "
     "from intermediate keys", "int_child_no": "serialized_extended_key called with int depth/child_no",
@@ -129,19 +130,45 @@ def chk_payload(case):
     p = bytes.fromhex(case["payload"])
     enc = B58.check_encode(p) if not case.get("badsum") else B58.encode(p + b"\x00\x00\x00\x00")
     valid = R.is_valid_payload(p) and not case.get("badsum")
-    got = call(b32.deserialized_extended_key, enc)
-    if got[0] == "ok" and not valid:
-        return [(f"C09/reject/invalid-accepted/{case.get('field', '?')}", f"deserialized_extended_key accepted payload {p.hex()} ({case.get('what', '')})")]
-    if got[0] != "ok" and valid:
-        return [(f"C09/reject/valid-rejected/{case.get('field', '?')}", f"deserialized_extended_key raised {got[1]} on valid payload {p.hex()} ({case.get('what', '')})")]
-    return []
+    out = []
+    for rd in (False, True):
+        got = call(b32.deserialized_extended_key, enc, return_dict=rd)
+        mode = "/return_dict" if rd else ""
+        if got[0] == "ok" and not valid:
+            out.append((f"C09/reject/invalid-accepted/{case.get('field', '?')}{mode}", f"deserialized_extended_key(return_dict={rd}) accepted payload {p.hex()} ({case.get('what', '')})"))
+        if got[0] != "ok" and valid:
+            out.append((f"C09/reject/valid-rejected/{case.get('field', '?')}{mode}", f"deserialized_extended_key(return_dict={rd}) raised {got[1]} on valid payload {p.hex()} ({case.get('what', '')})"))
+        if got[0] == "ok" and valid and rd:
+            d = got[1]
+            exp = {"version": p[:4].hex(), "depth": p[4], "parent_key_fingerprint": p[5:9].hex(), "child_no": int.from_bytes(p[9:13], "big"),
+                   "chaincode": p[13:45].hex(), "key": (p[46:] if p[45] == 0 else p[45:]).hex()}
+            if d != exp:
+                out.append(("C09/deserialise/dict-fields", f"return_dict fields {str(d)[:200]} != {str(exp)[:200]}"))
+    return out
 
 
 CASES = {"node": chk_node, "payload": chk_payload}
 
 
 def run_case(kind, case):
+    if kind == "seq":
+        from vf import seqexplore
+        return seqexplore.replay(run_case, case)
     return CASES[kind](case)
+
+
+def seq_ops(job):
+    """the same seed under both networks, from root and from an intermediate key, in every order"""
+    sd = seeds(job["seed"])[0].hex()
+    ops = []
+    for tn in (False, True):
+        for path in ([0], [0, H + 1], [H, 1]):
+            ops.append(("node", {"seedbytes": sd, "testnet": tn, "path": path}))
+    root = R.root(bytes.fromhex(sd))
+    ops.append(("payload", {"payload": B58.check_decode(root.xprv()).hex(), "field": "valid", "what": "valid root xprv"}))
+    bad = B58.check_decode(root.xprv())
+    ops.append(("payload", {"payload": (bad[:46] + bytes(32)).hex(), "field": "key", "what": "zero key"}))
+    return ops
 
 
 def field_of(pos):
@@ -167,10 +194,15 @@ def jobs(tier, seed):
     for b in range(4):
         for sh in range(4):
             js.append({"name": f"reject/{b}/{sh}", "part": "reject", "base": b, "shard": [sh, 4], "weight": 5})
+    from vf.runner import seq_jobs
+    js += seq_jobs(8, weight=10)
     return js
 
 
 def run_job(job):
+    if job["part"] == "seq":
+        from vf.runner import run_seq_job
+        return run_seq_job(job, seq_ops(job), run_case)
     acc = Acc(job)
     seed, part = job["seed"], job["part"]
     if part == "tree":
